@@ -17,6 +17,9 @@ def sig_of(path, direction):
 
 def run(ctx):
     _run(ctx)
+    ctx.delegate("C16", ["C16.table", "C16.close"], "C01.role",
+                 "a ring keeps its role through write and read: the constructors orient it on the closed ring (the reader derives the "
+                 "role from that orientation)", floor=5)
     ctx.delegate("C03", ["C03.accept"], "C01.accept",
                  "what the writer may emit (empty parts, zero counts) is accepted back: validation errors are returned only for "
                  "invalid records", floor=6)
